@@ -276,7 +276,7 @@ Theorem io_poll_clock s beh timeout s' evs :
   (* loop time after the poll is the wake-up time *)
   now (ts s') = wake s timeout /\
   (* never blocks longer than asked *)
-  (0 <= timeout -> clock s <= wake s timeout <= clock s + timeout) /\
+  (ClockInv s -> 0 <= timeout -> clock s <= wake s timeout <= clock s + timeout) /\
   (* a readable eventfd or a zero timeout: no blocking at all *)
   (efd s = true \/ timeout = 0 -> wake s timeout = clock s) /\
   (* without a ready eventfd nothing runs: the state is the old one at the wake-up time *)
@@ -289,8 +289,8 @@ Theorem io_poll_clock s beh timeout s' evs :
 Proof.
   intros E.
   pose proof (io_poll_step beh s timeout) as ST. rewrite E in ST. cbn [fst] in ST.
-  assert (W2 : 0 <= timeout -> clock s <= wake s timeout <= clock s + timeout).
-  { intros Ht. unfold wake. repeat break_if; lia. }
+  assert (W2 : ClockInv s -> 0 <= timeout -> clock s <= wake s timeout <= clock s + timeout).
+  { unfold ClockInv. intros CI Ht. unfold wake. repeat break_if; lia. }
   assert (W3 : efd s = true \/ timeout = 0 -> wake s timeout = clock s).
   { unfold wake. intros [-> | ->]; [reflexivity|]. destruct (efd s); reflexivity. }
   assert (W1 : now (ts s') = wake s timeout /\
